@@ -48,3 +48,20 @@ Theorem C01_read_returns_the_head : forall me d w p data rest,
     /\ N.testbit (flags (get_radio w' me)) 6 = false.
 Proof. exact read_head. Qed.
 Print Assumptions C01_read_returns_the_head.
+
+(* (1') the streaming form of the transmitter link: write(buf, ask_no_ack, write_only=True) with CE low returns True
+   exactly when the TX FIFO had room at that moment (the STATUS byte shifted out with the flag-clearing transfer, not
+   a cached one) and has then appended exactly the normalised payload; it returns False and leaves the FIFO untouched
+   otherwise.  Nothing goes on the air, no other radio changes.  Hence an accepted payload is queued exactly once and
+   a refused one not at all -- for every world whose other radios do not transmit. *)
+Theorem C01_write_accepts_iff_room : forall me d w buf b noack,
+  Q me w -> AllWf w -> ce (get_radio w me) = false ->
+  norm_payload d buf = Ok b ->
+  let s := get_radio w me in
+  exists d' w',
+    write (WB me) buf noack true d w = (Ok (negb (tx_full s)), d', w')
+    /\ get_radio w' me = (if tx_full s then with_flags s 0 else loaded (with_flags s 0) noack b)
+    /\ (forall j, j <> me -> get_radio w' j = get_radio w j)
+    /\ air w' = air w.
+Proof. exact write_only_truth. Qed.
+Print Assumptions C01_write_accepts_iff_room.
